@@ -3,6 +3,12 @@ BASE_NOTE = ("Trusted: rustc nightly 1.97 front end (type check, MIR constructio
              "clauses only; the behavioural statement over all inputs is not proved. Host configuration only (no wasm32 cfg arms).")
 
 CLAIMS = {
+ "C10": ("table agreement (const precedence table, Pratt registration order, AST-builder match arms, grammar alternatives) + structural PEG analyses (ordered-choice shadowing, keyword guards, atomicity cascade)",
+         "Exhaustive static decision of: the effective binding order (PRECEDENCE_TABLE + the registration algorithm read off build_pratt_parser) equals the documented level list for all 26 binary, 4 prefix and 4 postfix operators (R1); "
+         "grammar alternatives = table = registrations = builder arms with agreeing (Rule, BinaryOp) pairs and documented tokens (R2); no operator literal is shadowed by an earlier alternative or by a postfix literal without look-ahead (R3); "
+         "every word-like literal tried before `identifier` is guarded by !identifier_rest or mandatory whitespace (R4); reserved words are prefix-free in order (R5); word/symbol spellings share evaluator arms (R6); "
+         "no atomic-by-cascade rule admits newlines but not spaces (R7). Layout insensitivity in general is not decided.",
+         BASE_NOTE, "DESIGN.md §4 C10"),
  "C17": ("exact-rational lint of the literal unit table + MIR dominance / who-may-call on units::convert",
          "Exhaustive static decision, for every row of the literal unit catalogue, of: identifier uniqueness (R1), metric/binary prefix "
          "ratios in exact rationals (R2/R2b), positive literal coefficients (R3), temperature maps composing to the identity symbolically (R4), "
